@@ -1911,7 +1911,20 @@ class FuncAnalysis:
             if un is not None:
                 return T.nary('and' if f == T.G('all') else 'or', tuple(T.as_cond(x[0]) for x in un))
         args, kws = self._canon_args(f, args, kws)
-        done, val = self._inline_body(f, args, kws, n)
+        n0, cnt0, new0, loops0, guards0 = len(self.events), self._counters(), getattr(self, '_n_new', 0), set(self.loops), len(self._guards)
+        try:
+            done, val = self._inline_body(f, args, kws, n)
+        except AnalysisError:
+            raise
+        except Exception:
+            # a helper that cannot be evaluated in place is kept as a call
+            del self.events[n0:]
+            del self._guards[guards0:]
+            self._restore_counters(cnt0)
+            self._n_new = new0
+            for k in set(self.loops) - loops0:
+                del self.loops[k]
+            done, val = False, None
         if done:
             return val
         if not stmt:
